@@ -1,7 +1,9 @@
-"""C09 witnesses.  The recorded findings of C09 (`finding` lines of KNOWN_FINDINGS.txt) are expected to fail and are
-exercised through harness/c09.py finding_witnesses; the witnesses of the three defects repaired upstream
-(`fixed:` lines: tcp-attribute-error 9e84fe8, mnr-sets-start-offset 41b1329, sn-identity 434048d) and the
-regression witnesses below must pass."""
+"""C09 witnesses.  The one recorded finding of C09 (df-23976) is expected to fail and is exercised through
+harness/c09.py finding_witnesses; the witnesses of the repaired defects (`fixed:` lines of KNOWN_FINDINGS.txt:
+tcp-attribute-error 9e84fe8, mnr-sets-start-offset 41b1329, sn-identity 434048d, and - second phase - tnb-zero-division,
+cumulative-before-first, tf-strip-not-cut, comment-flag-ignored, iso6937-a4, blank-row-dropped, vp-zero-above-safe-area)
+and the regression witnesses below must pass: each checks what the specification prescribes on the input that used to
+fail."""
 import os, re
 from witnesses import witness
 
@@ -21,7 +23,8 @@ def _mk(fid):
     return f
 
 
-FIXED = ("tcp-attribute-error", "mnr-sets-start-offset", "sn-identity")
+FIXED = ("tcp-attribute-error", "mnr-sets-start-offset", "sn-identity", "tnb-zero-division", "cumulative-before-first",
+         "tf-strip-not-cut", "comment-flag-ignored", "iso6937-a4", "blank-row-dropped", "vp-zero-above-safe-area")
 for _fid in sorted(_listed()):
     if _fid not in FIXED:
         witness("C09", _fid)(_mk(_fid))
@@ -85,3 +88,82 @@ def _():
     ps = [p for d in r[1]["divs"] for p in d]
     if len(ps) != 1 or [i[0] for i in ps[0][5]] != ["sub", "sub"]: return f"paragraphs {ps}"
     if ps[0][5][0][3][0][5] != "one two" or ps[0][5][1][1:3] != (Fraction(2), Fraction(3)): return f"parts {ps[0][5]}"
+
+
+# ---- second phase: the inputs of the seven defects repaired then -------------------------------------------------------
+def _text(p):
+    return "".join(i[1][5] for i in p[5] if i[0] == "leaf" and i[1][0] == "run")
+
+
+@witness("C09", "tnb-zero-division")
+def _():
+    import c09
+    ps = _paras(c09.run_reader(c09.gsi(tnb=b"00000") + c09.tti() + c09.tti(sn=1, tci=(0, 0, 3, 0), tco=(0, 0, 4, 0)), _BASE))
+    if ps is None or len(ps) != 2: return f"GSI TNB = 00000: {ps}"
+    calls = []
+    import io, ttconv.stl.reader as R
+    R.to_model(io.BytesIO(c09.gsi(tnb=b"00002") + c09.tti() + c09.tti(sn=1)), None, calls.append)
+    if calls != [0.0, 0.5]: return f"progress with TNB = 2: {calls}"
+
+
+@witness("C09", "cumulative-before-first")
+def _():
+    import c09
+    from fractions import Fraction
+    # an intermediate member as the first block of the file opens a paragraph of its own
+    ps = _paras(c09.run_reader(c09.gsi() + c09.tti(cs=2) + c09.tti(sn=1, cs=3, tci=(0, 0, 3, 0), tco=(0, 0, 4, 0), tf=b"CD"), _BASE))
+    if ps is None or len(ps) != 1 or [i[0] for i in ps[0][5]] != ["sub", "sub"]: return f"CS=2 first: {ps}"
+    if ps[0][5][0][1:3] != (Fraction(1), Fraction(2)) or ps[0][5][1][1:3] != (Fraction(3), Fraction(4)): return f"times {ps[0][5]}"
+    # the first member of the set is dropped (before the programme start): the later members are still presented
+    ps = _paras(c09.run_reader(c09.gsi() + c09.tti(cs=1, tf=b"one") + c09.tti(sn=1, cs=3, tci=(0, 0, 3, 0), tco=(0, 0, 4, 0), tf=b"two"),
+                               dict(_BASE, start="00:00:02:00")))
+    if ps is None or len(ps) != 1 or ps[0][5][0][1:3] != (Fraction(1), Fraction(2)) or ps[0][5][0][3][0][5] != "two": return f"first member dropped: {ps}"
+    # an undefined CS value is read like a non-cumulative subtitle
+    ps = _paras(c09.run_reader(c09.gsi() + c09.tti(cs=7), _BASE))
+    if ps is None or len(ps) != 1 or ps[0][4] != (Fraction(1), Fraction(2)): return f"CS=7 first: {ps}"
+
+
+@witness("C09", "tf-strip-not-cut")
+def _():
+    import c09
+    ps = _paras(c09.run_reader(c09.gsi() + c09.tti(tf=b"\x8fAB"), _BASE))
+    if ps is None or len(ps) != 1 or ps[0][5] != []: return f"8F 41 42 is not an empty field: {ps}"
+    ps = _paras(c09.run_reader(c09.gsi() + c09.tti(ebn=0, tf=b"one \x8fjunk") + c09.tti(tf=b"two\x8f\x8fx"), _BASE))
+    if ps is None or len(ps) != 1 or _text(ps[0]) != "one two": return f"extension chain with interior 8F: {ps}"
+
+
+@witness("C09", "comment-flag-ignored")
+def _():
+    import c09
+    ps = _paras(c09.run_reader(c09.gsi() + c09.tti(cf=1, tf=b"translator note") + c09.tti(sn=1, ebn=0, cf=1, tf=b"note ") +
+                               c09.tti(sn=1, cf=1, tf=b"continued") + c09.tti(sn=2, tf=b"shown"), _BASE))
+    if ps is None or [_text(p) for p in ps] != ["shown"]: return f"comment blocks (CF=1) presented: {ps}"
+
+
+@witness("C09", "iso6937-a4")
+def _():
+    import c09
+    ps = _paras(c09.run_reader(c09.gsi() + c09.tti(tf=b"a\xa4b\xa8"), _BASE))
+    if ps is None or _text(ps[0]) != "a$b\u00a4": return f"0xA4 0xA8 decode to {ps and _text(ps[0])!r}"
+
+
+@witness("C09", "blank-row-dropped")
+def _():
+    import c09
+    ps = _paras(c09.run_reader(c09.gsi() + c09.tti(tf=b"A\x8a\x8aB", vp=10), _BASE))
+    if ps is None or [i[1][0] for i in ps[0][5]] != ["run", "br", "br", "run"]: return f"single height A, empty row, B: {ps}"
+    ps = _paras(c09.run_reader(c09.gsi() + c09.tti(tf=b"\x0dA\x8a\x8a\x0dB", vp=10), _BASE))
+    if ps is None or [i[1][0] for i in ps[0][5]] != ["run", "br", "run"]: return f"double height A, B: {ps}"
+
+
+@witness("C09", "vp-zero-above-safe-area")
+def _():
+    import c09
+    for rows in (99, 23, 5, 3, 2):
+        r = c09.run_reader(c09.gsi(dsc=b"0") + c09.tti(vp=0), dict(_BASE, rows=rows))
+        if r[0] != "ok" or len(r[1]["regions"]) != 1: return f"VP=0, {rows} rows: {r}"
+        x, y, w, h, after = r[1]["regions"][0]
+        if not (10 <= y and y + h <= 90 + 1e-9 and h >= 0): return f"VP=0, {rows} rows: region y={float(y)} h={float(h)} outside the safe area"
+    r1 = c09.run_reader(c09.gsi(dsc=b"0") + c09.tti(vp=1), dict(_BASE, rows=99))
+    r0 = c09.run_reader(c09.gsi(dsc=b"0") + c09.tti(vp=0), dict(_BASE, rows=99))
+    if r0[1]["regions"] != r1[1]["regions"]: return "VP=0 is not placed like the top row"
